@@ -56,6 +56,22 @@ theorem parse_dump (keep : Bool) (r : Rec) (h : WellFormedRecord r) :
     parseLine cliCsvDelim keep (dumpCsvLine r) = .ok (zeroFreq keep r) :=
   ⟨parse_dump_ssv keep r h, parse_dump_csv keep r h⟩
 
+/-- distinct well-formed records are dumped as distinct lines (both formats): the dump loses nothing -/
+theorem dumpLine_injective {r r' : Rec} (h : WellFormedRecord r) (h' : WellFormedRecord r') :
+    (dumpLine r = dumpLine r' → r = r') ∧ (dumpCsvLine r = dumpCsvLine r' → r = r') := by
+  have z : ∀ x : Rec, zeroFreq true x = x := fun x => by simp [zeroFreq]
+  constructor
+  · intro e
+    have a := (parse_dump true r h).1
+    have b := (parse_dump true r' h').1
+    rw [e, b, z, z] at a
+    exact (Except.ok.inj a).symm
+  · intro e
+    have a := (parse_dump true r h).2
+    have b := (parse_dump true r' h').2
+    rw [e, b, z, z] at a
+    exact (Except.ok.inj a).symm
+
 /-- what `WellFormedRecord` says, spelled out -/
 theorem wellFormedRecord_iff {r : Rec} : WellFormedRecord r ↔
     (r.phrase ≠ [] ∧ r.phrase.head? ≠ some cliQuote ∧ r.phrase.getLast? ≠ some cliQuote ∧
